@@ -39,7 +39,11 @@ func checkC10(h *History, vs []*opView) {
 	}
 	// every question a client sent that decodes at all (garbage included)
 	askedQ := map[string]bool{}
+	lenient := false // some input only the proxy's (more lenient) decoder accepts
 	for _, v := range vs {
+		if v.q == nil && v.o.Op.Raw != nil {
+			lenient = true
+		}
 		if v.q != nil && len(v.q.Q) > 0 {
 			for _, q := range v.q.Q {
 				askedQ[fmt.Sprintf("%x/%d/%d", []byte(q.Name.Lower()), q.Type, q.Class)] = true
@@ -49,7 +53,7 @@ func checkC10(h *History, vs []*opView) {
 	for _, tag := range h.UpOrder {
 		u := h.Ups[tag]
 		for _, q := range u.Queries {
-			if q.Decoded && q.Token == "" && q.NQ == 1 && !strings.HasPrefix(peersTokenOrG(q.Name), "g") && !askedQ[fmt.Sprintf("%x/%d/%d", []byte(q.Name.Lower()), q.Type, q.Class)] {
+			if !lenient && q.Decoded && q.Token == "" && q.NQ == 1 && !strings.HasPrefix(peersTokenOrG(q.Name), "g") && !askedQ[fmt.Sprintf("%x/%d/%d", []byte(q.Name.Lower()), q.Type, q.Class)] {
 				// a name without a token label: still has to be some client's question
 				h.S.Fail(prop, "question-nobody-asked", "upstream %s received a query for %s type %d class %d, which no client asked", tag, q.Name, q.Type, q.Class)
 			}
@@ -482,6 +486,11 @@ func checkC01(h *History, vs []*opView) {
 		for i, r := range v.o.Resps {
 			if (!v.isHTTP || r.Status == 200) && v.resps[i] != nil {
 				ok200++
+				// "still answered": the answer is to this query
+				m := v.resps[i]
+				if m.ID != v.q.ID || len(m.Q) != 1 || len(v.q.Q) == 1 && (!m.Q[0].Name.Lower().Equal(v.q.Q[0].Name.Lower()) || m.Q[0].Type != v.q.Q[0].Type || m.Q[0].Class != v.q.Q[0].Class) {
+					h.S.Fail("C01", "answered-wrongly", "op %d: valid query on %s listener after garbage input was answered with id %d question %v (sent id %d question %v)", v.o.Op.Idx, v.srv.Proto, m.ID, m.Q, v.q.ID, v.q.Q)
+				}
 			}
 		}
 		if ok200 == 0 && v.keptOpen >= requestDeadline+slack+500*time.Millisecond {
